@@ -104,6 +104,71 @@ pub fn run_pat_px(l: &[i128]) -> Vec<i128> {
         }
     };
     let exact = blend == 0 && opacity >= 1.0 || (blend == 1 && opacity >= 1.0 && bgc[3] == 0);
+    // ---- full reference (f64): filter taps and weights, clamps, opacity, blend, store
+    let is_translate = total.sx == 1.0 && total.sy == 1.0 && total.kx == 0.0 && total.ky == 0.0;
+    let int_translate = is_translate && total.tx == total.tx.trunc() && total.ty == total.ty.trunc();
+    let eff_filter = if is_translate { 0 } else { filter_i };
+    let _ = int_translate;
+    let near = |t: f64| t * (t * ((-21.0 / 18.0) * t + 27.0 / 18.0) + 9.0 / 18.0) + 1.0 / 18.0;
+    let far = |t: f64| (t * t) * ((7.0 / 18.0) * t - 6.0 / 18.0);
+    let op = (opacity as f64).max(0.0).min(1.0);
+    let reference = |u: f64, v: f64| -> [f64; 4] {
+        let mut acc = [0.0f64; 4];
+        match eff_filter {
+            0 => {
+                let e = srcpx(u.floor() as i64, v.floor() as i64);
+                for j in 0..4 {
+                    acc[j] = e[j] as f64 / 255.0;
+                }
+            }
+            1 => {
+                let (iu, iv) = ((u - 0.5).floor(), (v - 0.5).floor());
+                let (fu, fv) = (u - 0.5 - iu, v - 0.5 - iv);
+                for (dy, wy) in [(0i64, 1.0 - fv), (1, fv)] {
+                    for (dx, wx) in [(0i64, 1.0 - fu), (1, fu)] {
+                        let e = srcpx(iu as i64 + dx, iv as i64 + dy);
+                        for j in 0..4 {
+                            acc[j] += wx * wy * e[j] as f64 / 255.0;
+                        }
+                    }
+                }
+            }
+            _ => {
+                let (iu, iv) = ((u - 0.5).floor(), (v - 0.5).floor());
+                let (fu, fv) = (u - 0.5 - iu, v - 0.5 - iv);
+                let wxs = [far(1.0 - fu), near(1.0 - fu), near(fu), far(fu)];
+                let wys = [far(1.0 - fv), near(1.0 - fv), near(fv), far(fv)];
+                for (dy, wy) in wys.iter().enumerate() {
+                    for (dx, wx) in wxs.iter().enumerate() {
+                        let e = srcpx(iu as i64 - 1 + dx as i64, iv as i64 - 1 + dy as i64);
+                        for j in 0..4 {
+                            acc[j] += wx * wy * e[j] as f64 / 255.0;
+                        }
+                    }
+                }
+                // clamp_0, clamp_a
+                for j in 0..4 {
+                    acc[j] = acc[j].max(0.0);
+                }
+                acc[3] = acc[3].min(1.0);
+                for j in 0..3 {
+                    acc[j] = acc[j].min(acc[3]);
+                }
+            }
+        }
+        for j in 0..4 {
+            acc[j] *= op;
+        }
+        if blend != 0 {
+            let sa = acc[3];
+            for j in 0..4 {
+                acc[j] += bgc[j] as f64 / 255.0 * (1.0 - sa);
+            }
+        }
+        acc
+    };
+    let mut bad_ref = 0i128;
+    let mut worst_ref = 0.0f64;
     for y in 0..h {
         for x in 0..w {
             let got = pm.pixel(x, y).unwrap();
@@ -131,6 +196,31 @@ pub fn run_pat_px(l: &[i128]) -> Vec<i128> {
                 }
                 if !strictly_inside {
                     continue;
+                }
+            }
+            // the reference colour, compared where a small error of the mapped position cannot change the taps much:
+            // evaluated at the position and at four positions eps around it, the result must be within one level of that range
+            if !constant && !(eff_filter == 0 && ((u - u.round()).abs() < eps || (v - v.round()).abs() < eps))
+                && !(eff_filter != 0 && (((u - 0.5) - (u - 0.5).round()).abs() < eps || ((v - 0.5) - (v - 0.5).round()).abs() < eps) && spread_eff != 0)
+            {
+                let probes = [(u, v), (u - eps, v), (u + eps, v), (u, v - eps), (u, v + eps)];
+                let vals: Vec<[f64; 4]> = probes.iter().map(|(a, b)| reference(*a, *b)).collect();
+                let skip = eff_filter == 0 && false;
+                if !skip {
+                    for j in 0..4 {
+                        let lo = vals.iter().map(|c| c[j]).fold(f64::INFINITY, f64::min) * 255.0;
+                        let hi = vals.iter().map(|c| c[j]).fold(f64::NEG_INFINITY, f64::max) * 255.0;
+                        let gj = g[j] as f64;
+                        let err = if gj < lo { lo - gj } else if gj > hi { gj - hi } else { 0.0 };
+                        if err > worst_ref {
+                            worst_ref = err;
+                        }
+                        if err > REF_TOL {
+                            bad_ref += 1;
+                            note(&mut first, x, y, 6, g[j], ((lo + hi) / 2.0).round() as i64);
+                            break;
+                        }
+                    }
                 }
             }
             if !exact {
@@ -179,8 +269,11 @@ pub fn run_pat_px(l: &[i128]) -> Vec<i128> {
             }
         }
     }
-    vec![checked, bad_near, bad_hull, bad_premul, outside, bad_const, first[0], first[1], first[2], first[3], first[4]]
+    vec![checked, bad_near, bad_hull, bad_premul, outside, bad_const, first[0], first[1], first[2], first[3], first[4], bad_ref, (worst_ref * 100.0) as i128]
 }
+
+/// tolerance of the reference comparison, in 8-bit levels (binary32 weights and sums, rounding at the store)
+const REF_TOL: f64 = 1.01;
 
 /// args: w h x y (bit patterns) -> the gather index
 pub fn run_gather(l: &[i128]) -> Vec<i128> {
